@@ -267,7 +267,7 @@ impl Proj {
 // Instruction pools shared by c08 / c09 / c10
 // ---------------------------------------------------------------------------------------------
 
-use crate::progs::{parse_one, Pools};
+use crate::progs::{BODY_POOL, DEF_POOL};
 use crate::rng::Rng;
 use quil_rs::instruction::{Gate, Measurement, Pragma};
 use std::str::FromStr;
@@ -378,6 +378,10 @@ pub const EXTRA_POOL: &[&str] = &[
     "DEFGATE SEQ a b AS SEQUENCE:\n\tH a\n\tCNOT a b",
     "DEFGATE SEQ2 a AS SEQUENCE:\n\tX a\n\tSEQ3 a",
     "DEFGATE SEQ3 a AS SEQUENCE:\n\tZ a",
+    // sequence definitions that refer to each other in a cycle: expansion is an error
+    "DEFGATE CYC a AS SEQUENCE:\n\tCYD a",
+    "DEFGATE CYD a AS SEQUENCE:\n\tCYC a",
+    "CYC 2",
     "X q",
     "Y 7",
     "Z 3",
@@ -405,6 +409,41 @@ pub const EXTRA_POOL: &[&str] = &[
     "HALT",
 ];
 
+/// Parse a text holding exactly one instruction WITHOUT depending on any single listing function (the
+/// listing functions are what C08-C10 test: a broken one must show up as failing cases, not as an
+/// unbuildable pool): copying listing, else consuming listing, else the containers' own views.
+pub fn parse_one(text: &str) -> Instruction {
+    let p = Program::from_str(text).unwrap_or_else(|e| panic!("pool text does not parse: {text:?}: {e}"));
+    let mut candidates: Vec<Vec<Instruction>> = vec![p.to_instructions(), p.clone().into_instructions()];
+    let mut parts: Vec<Instruction> = p.extern_pragma_map.to_instructions();
+    parts.extend(p.memory_regions.iter().map(|(name, d)| {
+        Instruction::Declaration(quil_rs::instruction::Declaration {
+            name: name.clone(),
+            size: d.size.clone(),
+            sharing: d.sharing.clone(),
+        })
+    }));
+    parts.extend(p.frames.to_instructions());
+    parts.extend(p.waveforms.iter().map(|(name, definition)| {
+        Instruction::WaveformDefinition(quil_rs::instruction::WaveformDefinition {
+            name: name.clone(),
+            definition: definition.clone(),
+        })
+    }));
+    parts.extend(p.calibrations.iter_calibrations().cloned().map(Instruction::CalibrationDefinition));
+    parts.extend(p.calibrations.iter_measure_calibrations().cloned().map(Instruction::MeasureCalibrationDefinition));
+    parts.extend(p.gate_definitions.values().cloned().map(Instruction::GateDefinition));
+    parts.extend(p.circuits.values().cloned().map(Instruction::CircuitDefinition));
+    parts.extend(p.body_instructions().cloned());
+    candidates.push(parts);
+    candidates
+        .into_iter()
+        .find(|v| v.len() == 1)
+        .unwrap_or_else(|| panic!("pool entry is not one instruction: {text:?}"))
+        .pop()
+        .unwrap()
+}
+
 pub struct Pool {
     pub defs: Vec<Instruction>,
     pub body: Vec<Instruction>,
@@ -414,20 +453,10 @@ pub struct Pool {
 
 impl Pool {
     pub fn new() -> Self {
-        let base = Pools::new();
-        let mut defs = base.defs;
-        let mut body = base.body;
-        let bad: Vec<&&str> = EXTRA_POOL
-            .iter()
-            .filter(|t| !matches!(Program::from_str(t), Ok(p) if p.to_instructions().len() == 1))
-            .collect();
-        assert!(bad.is_empty(), "extra pool entries that are not one parsable instruction: {bad:?}");
+        let mut defs: Vec<Instruction> = DEF_POOL.iter().map(|t| parse_one(t)).collect();
+        let mut body: Vec<Instruction> = BODY_POOL.iter().map(|t| parse_one(t)).collect();
         for t in EXTRA_POOL {
-            let i = match Program::from_str(t) {
-                Ok(p) if p.to_instructions().len() == 1 => parse_one(t),
-                Ok(p) => panic!("extra pool entry is not one instruction: {t:?} -> {}", p.to_instructions().len()),
-                Err(e) => panic!("extra pool entry does not parse: {t:?}: {e}"),
-            };
+            let i = parse_one(t);
             let mut pr = Proj::new();
             if pr.kind_key(&i).0 == "body" {
                 body.push(i)
